@@ -197,7 +197,14 @@ class Exprs:
         env.frames = acc.frames
         return val
 
+    def is_memo_test(self, node):
+        return len(node.ops) == 1 and isinstance(node.ops[0], (ast.In, ast.NotIn)) and isinstance(node.comparators[0], ast.Name) \
+            and self.ctx.stack and (self.ctx.stack[-1][0], node.comparators[0].id) in self.memo_names
+
     def ev_Compare(self, node, env):
+        if self.is_memo_test(node):
+            self.eval(node.left, env)
+            return Bool(None)
         left = self.eval(node.left, env)
         res = None
         for op, c in zip(node.ops, node.comparators):
@@ -238,6 +245,11 @@ class Exprs:
             return r if isinstance(op, ast.Eq) else (not r)
         if isinstance(op, (ast.In, ast.NotIn)):
             self.check_container(b, a, env, node)
+            if isinstance(a, Str) and isinstance(b, PyConst) and isinstance(b.v, (set, frozenset, tuple, list, dict)):
+                cva = S.const_value(env, a)
+                if cva is not None and all(isinstance(x, str) for x in b.v):
+                    r = cva in b.v
+                    return r if isinstance(op, ast.In) else (not r)
             # definite `'x' in s` for a single constant character
             if isinstance(a, Str) and isinstance(b, Str):
                 ch = S.const_value(env, a)
